@@ -1630,7 +1630,7 @@ class Compiler:
         ))
 
         bool_cond = (
-            "if name in BOOL_NAMES:\n" +
+            "if name.lower() in BOOL_NAMES:\n" +
             indent("if not bool(value): continue\n") +
             indent("value = name\n")
         ) if node.bool_names else ""
